@@ -49,12 +49,14 @@ def cases(tier, seed):
     for e in range(n_el):
         for env in ENVS:
             for est in ("nonparametric", "gaussian", "bootstrap"):
-                for gate in ("pass", "fail", "fail-empty"):
+                for gate in ("pass", "fail", "fail-empty", "fail-blocklisted"):
                     # how the caller hands over model_parameters across the 16 runs of one process: a fresh copy per
                     # run, ONE dict object reused for every run, or (no parameters needed) the argument left out
                     args = ARG_MODES[(k + e) % len(ARG_MODES)]
                     if est == "bootstrap" and args == "omitted":
                         args = "shared"  # the bootstrap case needs B / lambda_ to stay cheap
+                    if gate == "fail-blocklisted" and args == "omitted":
+                        args = "copied"  # the blocklist travels in model_parameters
                     # config and preprocessed data handed over by the caller, or fetched from storage by the client
                     inputs = "storage" if (k + e) % 4 == 1 else "passed"
                     out.append(dict(seed=seed, i=e, env=env, estimator=est, gate=gate, args=args, inputs=inputs))
@@ -130,7 +132,7 @@ def check_trace(tr, spec):
     if tr["outcome"] == "error":
         V(f"C18/run-raised/{tr['exc_type']}", f"run raised {tr['exc_type']}: {tr['exc_msg']}")
         return vs
-    if spec["gate"] in ("fail", "fail-empty") and tr["outcome"] != "not_enough":
+    if spec["gate"] in ("fail", "fail-empty", "fail-blocklisted") and tr["outcome"] != "not_enough":
         V("C18/harness/gate-did-not-fail", "expected the minimum-units gate to fail")
     if spec["gate"] == "pass" and tr["outcome"] != "ok":
         V("C18/harness/gate-did-not-pass", "expected the run to complete")
@@ -298,6 +300,9 @@ def child(spec):
     # make the gate outcome deterministic: exactly 3 baseline units at 100 % (fail) / at least 45 (pass)
     base_ids = set(el.pre[el.pre.baseline_turnout > 0].geographic_unit_fips)
     want = 3 if spec["gate"] == "fail" else (0 if spec["gate"] == "fail-empty" else 45)
+    if spec["gate"] == "fail-blocklisted":
+        # plenty of units report, but every state of the election is on the blocklist: nothing is left to model
+        call["model_parameters"]["postal_code_blocklist"] = sorted(set(el.pre.postal_code.astype(str)))
     n_rep = 0
     for j in range(len(feed)):
         if feed.loc[j, "geographic_unit_fips"] not in base_ids:
